@@ -9,6 +9,8 @@ mod enc;
 mod fill;
 mod gen;
 mod headers;
+mod history;
+mod mutate;
 mod par;
 mod parcmd;
 mod sched;
@@ -101,6 +103,9 @@ fn main() {
         "comp" => comp::cmd_comp(&a),
         "api" => api::cmd_api(&a),
         "headers" => headers::cmd_headers(&a),
+        "mutate" => mutate::cmd_mutate(&a),
+        "history" => history::cmd_history(&a),
+        "histexp" => history::cmd_histexp(&a),
         "cfg19" => cfgcmd::cmd_cfg19(&a),
         other => {
             eprintln!("unknown subcommand {other:?}");
